@@ -156,7 +156,9 @@ func c09Run(c *core.Ctx) {
 						c.Count("faults_injected", 1)
 						rp := map[string]interface{}{"case": ci, "case_name": cs.Name, "policy": pi, "words": words, "fault_at_read": k, "deliver": j, "err": e.Error()}
 						fk := fmt.Sprintf("%s fault(err=%s)", cs.Name, e)
-						if out.HasPw {
+						if out.Aborted {
+							c.Violation(fk+" spins", fmt.Sprintf("the source failed at read %d of %d and generation kept reading from it for ever (cut off after 10000 further reads)", k, K), rp)
+						} else if out.HasPw {
 							c.Violation(fk+" password", fmt.Sprintf("the source failed at read %d of %d (%d bytes delivered, %v) but Generate returned %q", k, K, j, e, out.Str), rp)
 						} else if out.Panic == "" && out.Err == "" {
 							c.Violation(fk+" silent", fmt.Sprintf("source failure at read %d: neither password, error nor panic", k), rp)
@@ -302,6 +304,10 @@ func c09Faults(c *core.Ctx, ci int, cs c09Case, g func() (*spg.Password, error),
 				c.Count("faults_injected", 1)
 				rp := map[string]interface{}{"case": ci, "case_name": cs.Name, "words": words, "fault_at_read": k, "deliver": j, "err": e.Error()}
 				fk := fmt.Sprintf("%s fault(err=%s)", cs.Name, e)
+				if out.Aborted {
+					c.Violation(fk+" spins", fmt.Sprintf("the source failed at read %d of %d and generation kept reading from it for ever (cut off after 10000 further reads)", k, K), rp)
+					return
+				}
 				if out.HasPw {
 					c.Violation(fk+" password", fmt.Sprintf("the source failed at read %d of %d (%d bytes delivered, %v) but Generate returned %q", k, K, j, e, out.Str), rp)
 					return
